@@ -136,6 +136,40 @@ func geomCmd(args []string) error {
 						break
 					}
 				}
+				// the deprecated rotated-bitboard line lookups (exported, not used by the engine) are the same geometry,
+				// one line at a time; lines by coordinates: rank, file, a1-h8 direction, a8-h1 direction
+				lineOf := func(f func(x int) bool) Bitboard {
+					m := Bitboard(0)
+					for x := 0; x < 64; x++ {
+						if f(x) {
+							m |= Square(x).Bb()
+						}
+					}
+					return m
+				}
+				s0 := r.S
+				noise2 := Bitboard(rng.Uint64())
+				if pt == Rook {
+					rankM := lineOf(func(x int) bool { return x/8 == s0/8 })
+					fileM := lineOf(func(x int) bool { return x%8 == s0%8 })
+					res.count("C18.queries", 2)
+					if got := GetMovesOnRank(sq, occ|noise2&^rankM); got != want&rankM {
+						bad(&r, "line-moves/rank", bbSquares(got), bbSquares(want&rankM))
+					}
+					if got := GetMovesOnFile(sq, occ|noise2&^fileM); got != want&fileM {
+						bad(&r, "line-moves/file", bbSquares(got), bbSquares(want&fileM))
+					}
+				} else {
+					upM := lineOf(func(x int) bool { return x%8-x/8 == s0%8-s0/8 })
+					downM := lineOf(func(x int) bool { return x%8+x/8 == s0%8+s0/8 })
+					res.count("C18.queries", 2)
+					if got := GetMovesDiagUp(sq, occ|noise2&^upM); got != want&upM {
+						bad(&r, "line-moves/diag-up", bbSquares(got), bbSquares(want&upM))
+					}
+					if got := GetMovesDiagDown(sq, occ|noise2&^downM); got != want&downM {
+						bad(&r, "line-moves/diag-down", bbSquares(got), bbSquares(want&downM))
+					}
+				}
 				// queen = rook | bishop: checked with the other line empty
 				other := Bishop
 				if pt == Bishop {
@@ -193,6 +227,20 @@ func geomCmd(args []string) error {
 				if got := sq.CenterDistance(); got != num {
 					bad(&r, r.T, got, num)
 				}
+			case "fileBb":
+				cmpBb(sq.FileOf().Bb(), r.T)
+			case "rankBb":
+				cmpBb(sq.RankOf().Bb(), r.T)
+			case "colourBb":
+				c := Color(r.A[0])
+				cmpBb(SquaresBb(c), r.T)
+				if SquaresBb(c.Flip())&want != 0 || !SquaresBb(c).Has(Square(r.A[1])) {
+					bad(&r, r.T+"/overlap", bbSquares(SquaresBb(c.Flip())), set)
+				}
+			case "castleK":
+				cmpBb(KingSideCastleMask(Color(r.A[0])), r.T)
+			case "castleQ":
+				cmpBb(QueenSideCastMask(Color(r.A[0])), r.T)
 			case "castle":
 				if got := int(GetCastlingRights(sq)); got != num {
 					bad(&r, r.T, got, num)
